@@ -23,6 +23,9 @@ def parity(args, kwargs):
 def first(args, kwargs):
     """an injective custom key function on the argument forms used here"""
     return ("k", args, tuple(sorted(kwargs.items())))
+def nonekey(args, kwargs):
+    """an injective custom key function whose key for a call without arguments is None (a legal, hashable key)"""
+    return None if not args and not kwargs else ("k", args, tuple(sorted(kwargs.items())))
 M1 = semi_singleton_metaclass(@HF@)
 M2 = semi_singleton_metaclass(@HF@)
 class A(metaclass=M1):
@@ -82,7 +85,7 @@ def run(ctx):
     res.assumptions = ["arguments are hashable / JSON-serialisable as the default key function requires", "re-entrant construction is covered for one class whose __init__ constructs another key of its own class"]
     h = H(ctx.src, [MOD])
     n = 0
-    for hf in ("None", "first", "parity"):
+    for hf in ("None", "first", "parity", "nonekey"):
         prestates = [p for p in itertools.product((False, True), repeat=5)]
         if not ctx.thorough:
             keep = [(0, 0, 0, 0, 0), (1, 0, 0, 0, 0), (0, 1, 0, 0, 0), (1, 1, 0, 0, 0), (0, 0, 1, 0, 0), (1, 0, 1, 0, 1), (0, 0, 0, 1, 0), (0, 0, 0, 0, 1), (0, 0, 0, 1, 1), (1, 1, 1, 1, 1)]
@@ -344,7 +347,7 @@ def evaluate(h, hf, live, extra_two, op):
         T[c][key_of(hf, form)] = obj
     # observe: non-creating first, then constructions
     for c2 in CLASSES:
-        for f2 in ("one", "two", "three", "minus1", "minus2"):
+        for f2 in ("one", "two", "three", "minus1", "minus2", "none"):
             args, kw = callargs(f2)
             before = len(log.items)
             out = h.call(g["check_semi_singleton_entry_exists"], g[c2], *args, **kw)
@@ -352,7 +355,7 @@ def evaluate(h, hf, live, extra_two, op):
             if out.kind != "return" or len(log.items) != before or (want is None and out.value is not None and out.value is not False) or (want is not None and out.value is not want and out.value is not True):
                 return f"afterwards check({c2}, {f2}) reports {out!r}; the model's live mapping is {want!r}"
     for c2 in CLASSES:
-        for f2 in ("one", "three"):
+        for f2 in ("one", "three", "none", "none"):
             out, new = construct(c2, f2)
             w = model_call(c2, f2, out, new, "afterwards ")
             if w:
